@@ -140,7 +140,14 @@ fn run_inner(rng: &mut Rng, dir: &str) -> CaseOut {
     if format == "bnet" {
         nopts.kind_weights = [1, 0, 0, 0];
     }
-    let net = crate::net::gen_net(rng, &nopts);
+    let mut net = crate::net::gen_net(rng, &nopts);
+    if format == "bnet" {
+        // the .bnet format carries no regulation flags (the reader infers them from the functions)
+        for r in net.regs.iter_mut() {
+            r.sign = None;
+            r.observable = false;
+        }
+    }
     let world = World::from_net(net, rng, 10, 128);
     let bn0 = match libg::parse_bn(&world.net) {
         Ok(b) => b,
